@@ -28,12 +28,15 @@ class SymRng:
         self.log.append(("int", n, v))
         return v
 
-    def _real(self):
+    def _real(self, lo, hi, scale):
+        """next real draw: an integer parameter d with lo <= d <= hi (one fork: the conjunction is
+        built with & so that it stays a single solver term), returned as d / scale"""
         if self.r >= len(self.reals):
             assume(False)
         d = self.reals[self.r]
         self.r += 1
-        return d
+        assume((d >= lo) & (d <= hi))
+        return d / scale
 
     # --- integer-valued
     def randrange(self, start, stop=None, step=1):
@@ -69,34 +72,22 @@ class SymRng:
             pool[j] = pool[n - i - 1]
         return out
 
-    # --- real-valued
+    # --- real-valued (grid of 1e-6; the draw itself stays symbolic)
     def random(self):
-        d = self._real()
-        assume(d >= 0)
-        assume(d <= 1 - self.margin)
-        return d
+        return self._real(0, 999999, 1000000.0)
 
     def uniform(self, a, b):
-        d = self._real()
-        assume(d >= 0)
-        assume(d <= 1)
-        return a + (b - a) * d
+        return a + (b - a) * self._real(0, 1000000, 1000000.0)
 
     def expovariate(self, lambd):
-        # the draw itself is the waiting time (any positive real is a possible value);
-        # lambd is concrete in all harnesses so nothing depends on it except the range
-        d = self._real()
-        assume(d > 0)
-        assume(d <= 1000)
-        return d
+        # the draw itself is the waiting time (any positive value is possible for every rate);
+        # lambd is concrete in all harnesses so nothing else depends on it
+        return self._real(1, 10 ** 9, 1000000.0)
 
     def gauss(self, mu, sigma):
         if sigma == 0:
             return mu
-        d = self._real()
-        assume(d >= -1000)
-        assume(d <= 1000)
-        return mu + d
+        return mu + self._real(-10 ** 9, 10 ** 9, 1000000.0)
 
     normalvariate = gauss
 
